@@ -16,6 +16,7 @@
    "Side s ends" = a Read on s reports eof/err, or a Write to s fails.  The statement, clause by clause:
      InOrder    at every moment what was written to one side is a prefix of what was read from the other
      Delivered  if the first side to end does so by its Read ending, everything read from it was written to the other
+                (unless the Write to the other stream failed)
      BothClosed once a side has ended, Close is called on both streams (after that moment)
      Completed  ... and completion is reported, after both streams were closed
      EndToEnd   (application events, no broken stream) if application s is the first to finish and application o
@@ -38,6 +39,7 @@ S0 == [rd |-> Both(<<>>), wr |-> Both(<<>>),      \* bytes read from / written t
        se |-> Both(FALSE),                          \* application s saw the end of its input
        imp |-> Both(FALSE),                         \* application s finished without having seen the end
        hr |-> Both(FALSE),                          \* application s reads are recorded
+       wf |-> Both(FALSE),                          \* a Write to stream s failed
        dirty |-> FALSE]                             \* a stream broke / an application ended with an error
 
 Upd(m, e) ==
@@ -47,7 +49,7 @@ Upd(m, e) ==
          LET m1 == [m EXCEPT !.rd[s] = @ \o e.d, !.fe = IF ends THEN <<"read", s>> ELSE @] IN
          [m1 EXCEPT !.inorder = @ /\ IsPre(m1.wr[Other(s)], m1.rd[s])]
     [] e.k = "write" ->
-         LET m1 == [m EXCEPT !.wr[s] = @ \o e.d, !.fe = IF ends THEN <<"write", s>> ELSE @] IN
+         LET m1 == [m EXCEPT !.wr[s] = @ \o e.d, !.fe = IF ends THEN <<"write", s>> ELSE @, !.wf[s] = @ \/ e.e # "ok"] IN
          [m1 EXCEPT !.inorder = @ /\ IsPre(m1.wr[s], m1.rd[Other(s)])]
     [] e.k = "close" -> [m EXCEPT !.cl[s] = TRUE, !.ca[s] = @ \/ m.fe # <<>>]
     [] e.k = "done" -> [m EXCEPT !.dn = IF @ = <<>> THEN <<m.cl[1] /\ m.cl[2]>> ELSE @]
@@ -63,7 +65,9 @@ FoldFrom(m, h) == IF h = <<>> THEN m ELSE FoldFrom(Upd(m, Head(h)), Tail(h))
 Fold(h) == FoldFrom(S0, h)
 
 InOrder(m) == m.inorder
-Delivered(m) == (m.fe # <<>> /\ m.fe[1] = "read") => m.wr[Other(m.fe[2])] = m.rd[m.fe[2]]
+(* a Read may hand over its last bytes together with the ending (io.Reader allows it): they are delivered too, unless the Write of
+   exactly those bytes fails (then the other stream is broken, which is an ending of its own) *)
+Delivered(m) == (m.fe # <<>> /\ m.fe[1] = "read") => (m.wr[Other(m.fe[2])] = m.rd[m.fe[2]] \/ m.wf[Other(m.fe[2])])
 BothClosed(m) == m.fe # <<>> => m.ca[1] /\ m.ca[2]
 Completed(m) == m.fe # <<>> => m.dn = <<TRUE>>
 EndToEnd(m) ==
